@@ -6,7 +6,7 @@ from props import _family as F
 PROOF_MODULES = ['Jwt.Props.C10']
 PROP_MODULES = ['Jwt.Props.C10']
 PROP_FILES = ['Jwt/Props/C10.lean', 'Jwt/Lemmas/PipelineBuilder.lean']
-GENERATED_FACT_THEOREMS = 6
+GENERATED_FACT_THEOREMS = 7
 CHECKER_CMD = "cd lean && lake build Jwt.Props.C10 && lake env lean <generated #print axioms file>"
 LEVEL_TEXT = ('Lean theorems for every builder state and callback: token shape (three unpadded base64url parts, none <-> empty third), header = per-token headers with alg forced and typ defaulted (jwt_head_setup as two typed-map sets), claims = builder claims overridden by iat/nbf/exp, offsets on iff > 0 (generated __DISABLE), configuration untouched by generate, public-only keys refused. Tied to the code by configuration sequences + generate at several clocks with full token equality against the model and an independent decode against a Python builder spec.')
 ASSUMPTIONS = F.COMMON_ASSUME + []
